@@ -61,6 +61,9 @@ func main() {
 		for _, h := range r.determinismInventory(reg) {
 			fmt.Printf("%q: %q, // %s:%d\n", h.Fn+"|"+h.What, h.Sig, h.File, h.Line)
 		}
+		for _, h := range r.frontierReadInventory(reg) {
+			fmt.Printf("%q: \"\", // %s:%d via %s\n", h.Fn+"|"+h.What, h.File, h.Line, strings.Join(r.P.Chain(reg, r.P.Fn(h.Fn)), " → "))
+		}
 		return
 	}
 	if *flagDivs != "" {
